@@ -291,7 +291,8 @@ Inductive event :=
 | ECommit                          (* writer.commit(false); the root handle is kept aside *)
 | ECommitBump                      (* writer.commit(true): bump the SOA serial unless the writer set a new SOA *)
 | EDrop                            (* drop(writer); the root handle is kept aside *)
-| EStale (e : event).              (* data operation e through the handle kept aside *)
+| EStale (e : event)               (* data operation e through the handle kept aside *)
+| EDump.                           (* (harness only) the version numbers of all stored entries, from Debug *)
 
 Definition at_node (s : zstate) (v : N) (name : list N) (f : znode -> znode) : zstate :=
   match name with
@@ -485,6 +486,16 @@ Fixpoint walk_node (path : list N) (n : znode) (v : N) : list (list N * N * N) :
 Definition walk (s : zstate) (v : N) : list (list N * N * N) :=
   walk_rrsets [] (z_apex s) v ++ flat_map (fun p => walk_node [fst p] (snd p) v) (z_nodes s).
 
+(* the version numbers of every entry stored anywhere in the tree (RRsets and
+   specials of all nodes, whether or not their names exist in any version) *)
+Fixpoint n_versions (n : znode) : list N :=
+  match n with
+  | mknode rs sp ch =>
+      flat_map (fun p => map fst (snd p)) rs ++ map fst sp ++ flat_map (fun p => n_versions (snd p)) ch
+  end.
+Definition z_versions (s : zstate) : list N :=
+  flat_map (fun p => map fst (snd p)) (z_apex s) ++ flat_map (fun p => n_versions (snd p)) (z_nodes s).
+
 (* ---------------------------------------------------------------- ZoneBuilder *)
 
 Inductive init := IRrset (name : list N) (t rr : N) | ICname (name : list N) (id : N)
@@ -516,7 +527,8 @@ Definition build (is : list init) : zstate := fold_left build_one is (mkz 0 [] [
 Inductive obs :=
 | OAnswer (a : answer) | OWalk (l : list (list N * N * N)) | ONoReader
 | OGranted | OPending
-| OStaleDone | OStaleRejected | OStaleNoHandle.
+| OStaleDone | OStaleRejected | OStaleNoHandle
+| ODump (vs : list N).
 
 Fixpoint trace (s : zstate) (rd : list (N * N)) (evs : list event) : list obs :=
   match evs with
@@ -535,6 +547,7 @@ Fixpoint trace (s : zstate) (rd : list (N * N)) (evs : list event) : list obs :=
       | EWAcquire =>
           (match z_writer s with Some _ => if writer_takes_mutex then OPending else OGranted | None => OGranted end)
           :: trace (step s e) rd tl
+      | EDump => ODump (z_versions s) :: trace s rd tl
       | EStale _ =>
           (match z_handle s with
            | Some _ => if stale_handle_rejected then OStaleRejected else OStaleDone
